@@ -42,6 +42,7 @@ fn base_conn(reqs: Vec<Req>, start_ms: u32) -> ConnScript {
         grants: vec![],
         progs: vec![],
         start_ms,
+        writes_blocked_after_grants: false,
     }
 }
 
@@ -139,8 +140,27 @@ pub fn gen_c06(rng: &mut Rng, idx: u64) -> H1Scenario {
             // shutdown must not outlast the disconnect timeout
             let d = *rng.pick(&[500u64, 1000, 3000]);
             cfg.disc_timeout_ms = d;
-            let via = rng.below(3);
+            let via = rng.below(5);
             match via {
+                3 => {
+                    // the peer stops reading: the final flush can never complete; shutdown is
+                    // entered by the peer's half-close while the response is still unwritten
+                    cfg.keep_alive = Ka::Os;
+                    conn = base_conn(vec![simple_req(1, ConnOpt::Absent)], start_ms);
+                    conn.sock.gated_writes = true;
+                    conn.grants = if rng.chance(1, 2) { vec![] } else { vec![(rng.range(1, 40), 0)] };
+                    conn.writes_blocked_after_grants = true;
+                }
+                4 => {
+                    // the peer stops reading and never completes its first head: shutdown is
+                    // entered by the 408
+                    cfg.keep_alive = Ka::Os;
+                    cfg.req_timeout_ms = 1000;
+                    conn = base_conn(vec![simple_req(1, ConnOpt::Absent)], start_ms);
+                    conn.sock.gated_writes = true;
+                    conn.grants = if rng.chance(1, 2) { vec![] } else { vec![(rng.range(1, 20), 0)] };
+                    conn.writes_blocked_after_grants = true;
+                }
                 0 => {
                     // close asked by the request
                     cfg.keep_alive = Ka::Os;
@@ -163,7 +183,7 @@ pub fn gen_c06(rng: &mut Rng, idx: u64) -> H1Scenario {
                 }
             }
             let n = conn.stream().len();
-            let first = if via == 2 { conn.layout()[0].1 + 10 } else { n };
+            let first = if via == 2 { conn.layout()[0].1 + 10 } else if via == 4 { n - 3 } else { n };
             conn.segs = vec![Seg { end: first, delay_ms: rng.below(300) as u32, wait: Wait::Time }];
             conn.sock.shutdown = match rng.below(4) {
                 0 => ShutPlan::Ready,
@@ -172,6 +192,8 @@ pub fn gen_c06(rng: &mut Rng, idx: u64) -> H1Scenario {
                 _ => ShutPlan::PendingForever,
             };
             conn.end = match rng.below(3) {
+                _ if via == 3 => End::HalfClose { delay_ms: rng.below(d) as u32 },
+                _ if via == 4 => End::KeepOpen,
                 0 => End::KeepOpen,
                 1 => End::HalfClose { delay_ms: (d * 4) as u32 },
                 _ => End::HalfClose { delay_ms: rng.below(d) as u32 },
@@ -382,6 +404,22 @@ pub fn check_c06(sc: &H1Scenario, out: &H1Out) -> Vec<Violation> {
                         )),
                     }
                 }
+            }
+            if cs.writes_blocked_after_grants {
+                // shutdown begins with the peer's half-close (response answered) or with the 408
+                // deadline; the final flush can never complete, so only the timeout ends it
+                let start = if sc.cfg.req_timeout_ms > 0 { Some(t0 + sc.cfg.req_timeout_ms) } else { co.eof_sent_at.map(|x| x.0) };
+                if let Some(s) = start {
+                    match done_time(co) {
+                        Some(e) if e <= s + d + EPS => {}
+                        other => vs.push(Violation::new(
+                            "C06.disconnect-bounded",
+                            format!("via={}:peer-stopped-reading:outlasts-timeout", if sc.cfg.req_timeout_ms > 0 { "408" } else { "half-close" }),
+                            format!("shutdown was due at {} ms, disconnect timeout {} ms, the peer never reads; connection future finished at {:?} (result {:?})", s, d, other, co.result.as_ref().map(|r| &r.0)),
+                        )),
+                    }
+                }
+                return vs;
             }
             match co.shutdown_called.map(|x| x.0) {
                 None => {
